@@ -25,7 +25,10 @@
   completed later by `DeferredSnapshotActionCallback` with the returned / raised value.  `Collector.deferredSnapshot`
   (Model/CollectorDeferred.lean) models the two phases with what `Extracted.CollectorDeferred` says the second finds of the
   first; `deferred_eq_collect` proves the result equal to ONE collection (frames, watches / log fields, captured value last),
-  so every per-snapshot bound above holds over the whole pushed snapshot, for every event and value.
+  so every per-snapshot bound above holds over the whole pushed snapshot, for every event and value — WHEN THE HOST CHANGED
+  NOTHING the snapshot looks at between the two phases (one heap).  In general the host runs in between: `deferredSnapshot2 H H'`
+  has a heap per phase; count, depth and identity are proved for every pair (`c05_deferred_count`, `C07.c07_deferred_identity`),
+  the "describes its object" clauses only for `H' = H` (`c05_deferred_bounds_partial`, witness `c05_stale_capture_witness`).
 
   THE TIME BUDGET (`c05_time_*`, section at the end): `FrameCollector.__time_exceeded` and the guard of `_process_frame` are
   regenerated from the source (`Extracted/CollectorTime.lean`); the clock is a script (`Clock.read k` = what the k-th
@@ -376,37 +379,57 @@ end time
 section deferred
 open Extracted.CollectorDeferred
 
-/-- tripwire: what makes the two phases of a deferred snapshot one collection — `ActionContext.__exit__` leaves the identity
-    cache alone, nothing but `new_var_id` writes it, the callback collects through the action context that built the snapshot
-    and merges into that snapshot (re-checked against the source on every run) -/
+/-- tripwire: what makes the two phases of a deferred snapshot share one budget — as far as the extractor looks:
+    `ActionContext.__exit__` has its known shape (does not touch the cache); inside `VariableCacheProvider` only `__init__` and
+    `new_var_id` write the identity map; NO other store to an attribute named `var_cache` exists in action_context.py /
+    snapshot_action.py (the constructor and the nested log context excepted), no setattr / `__dict__` access names the cache
+    (`cacheRebinds = []`); the callback collects through the action context that built the snapshot and merges into that
+    snapshot.  A rebinding by means the extractor does not look for (another module, exec) leaves these flags true: that side
+    is covered by the differential run only (stream `deferred`). -/
 theorem c05_deferred_shares_budget :
-    exitKeepsCache = true ∧ cacheOnlyGrows = true ∧ callbackSameContext = true ∧ mergeIsUpdate = true := by decide
+    exitKeepsCache = true ∧ cacheOnlyGrows = true ∧ cacheRebinds = [] ∧ callbackSameContext = true ∧
+    mergeIsUpdate = true := by decide
 
-/-- **count over the whole pushed snapshot** — for every heap, limits, frames, watches, and every event / returned or raised
-    value the callback completes the snapshot with: frame + watches + captured value together hold at most `maxVars + 1`
-    variables (the callback does not start a fresh budget). -/
-theorem c05_deferred_count (H : Heap) (a : ActionIn) (event : String) (value : ObjId) (s : Snapshot)
-    (h : deferredSnapshot H a event value = .ok s) : s.table.length ≤ a.limits.maxVars + 1 := by
-  obtain ⟨ws, hw⟩ := deferred_is_collect H a event value
-  rw [hw] at h
-  exact c05_count H ⟨a.limits, a.frames, ws⟩ s h
+/-- **count over the whole pushed snapshot, two heaps** — `H` = the program state at the tracepoint's line, `H'` = the state at
+    the completing event (the host ran in between and may have changed, grown or emptied the objects phase 1 recorded): for
+    every pair of heaps, limits, frames, watches, and every event / returned or raised value the callback completes the snapshot
+    with, frame + watches + captured value together hold at most `maxVars + 1` variables (the callback does not start a fresh
+    budget), and nothing is recorded deeper than `maxDepth - 1`. -/
+theorem c05_deferred_count (H H' : Heap) (a : ActionIn) (event : String) (value : ObjId) (s : Snapshot)
+    (h : deferredSnapshot2 H H' a event value = .ok s) :
+    s.table.length ≤ a.limits.maxVars + 1 ∧ ∀ e ∈ s.table, e.depth ≤ a.limits.maxDepth - 1 := by
+  obtain ⟨c, f, _⟩ := deferred2_facts h
+  refine ⟨?_, ?_⟩
+  · have := f.inv.count
+    have := f.len
+    omega
+  · intro e he
+    rcases f.inv.tdepth e he with h0 | h1
+    · omega
+    · omega
 
-/-- **the other bounds over the whole pushed snapshot** — every entry, the captured value's included: value cut to `maxStr`
-    (flag exact), recorded at depth ≤ `maxDepth - 1`, at most `maxColl` children for sequences and exceptions. -/
-theorem c05_deferred_bounds (H : Heap) (a : ActionIn) (event : String) (value : ObjId) (s : Snapshot)
+/-- **the per-entry bounds (partial)** — named hypothesis: the two phases see the SAME heap (`deferredSnapshot H` =
+    `deferredSnapshot2 H H`: the host changed nothing the snapshot looks at between the tracepoint's line and the completing
+    event).  Then every entry, the captured value's included, is the rendering of ITS object cut to `maxStr` (flag exact), and
+    sequences / exceptions list at most `maxColl` children.  Without the hypothesis the "describes the value" reading fails
+    (`c05_stale_capture_witness`); that each entry was within the bounds when it was recorded remains true of the code but is
+    not proved here for `H ≠ H'` (the entry invariants of Proofs/FramesEntries are stated against one heap). -/
+theorem c05_deferred_bounds_partial (H : Heap) (a : ActionIn) (event : String) (value : ObjId) (s : Snapshot)
     (h : deferredSnapshot H a event value = .ok s) :
     ∀ e ∈ s.table,
       (∃ text, renderText (H.obj e.obj) = .ok text ∧ e.value.length ≤ a.limits.maxStr ∧
         (e.truncated = true ↔ text.length > a.limits.maxStr)) ∧
-      e.depth ≤ a.limits.maxDepth - 1 ∧
       ((H.obj e.obj).isDictExact = false →
         (listLikeTypes.contains e.ty = true ∨ (H.obj e.obj).isExc = .ok true) → e.children.length ≤ a.limits.maxColl) := by
   obtain ⟨ws, hw⟩ := deferred_is_collect H a event value
   rw [hw] at h
   intro e he
   obtain ⟨text, h1, h2, _, h4⟩ := c05_string H ⟨a.limits, a.frames, ws⟩ s h e he
-  exact ⟨⟨text, h1, h2, h4⟩, c05_depth H ⟨a.limits, a.frames, ws⟩ s h e he,
-    c05_collection H ⟨a.limits, a.frames, ws⟩ s h e he⟩
+  exact ⟨⟨text, h1, h2, h4⟩, c05_collection H ⟨a.limits, a.frames, ws⟩ s h e he⟩
+
+/-- `r = []` at the tracepoint's line (`return fill(r)`); at the return event the same list holds one element -/
+def Ex.staleLine : Heap := ⟨[Ex.dictOf [("r", 1)], Ex.listOf []]⟩
+def Ex.staleReturn : Heap := ⟨[Ex.dictOf [("r", 1)], Ex.listOf [2], Ex.scalar "int" "1000"]⟩
 
 set_option maxRecDepth 20000
 
@@ -421,6 +444,16 @@ example : (match deferredSnapshot Ex.nested ⟨⟨3, 1024, 10, 5⟩, Ex.frame0, 
 /-- budget left: the captured value and its elements are recorded under new ids after the frame's -/
 example : (match deferredSnapshot Ex.nested ⟨⟨40, 1024, 10, 2⟩, Ex.frame0, []⟩ "return" 3 with
     | .ok s => (s.table.map (·.vid), s.watches.map (·.vid)) | .failed _ => ([], [])) = ([2, 3, 4, 5, 6, 7], [some 4]) := by decide
+
+/-- witness: **the hypothesis of `c05_deferred_bounds_partial` is needed** (known-finding candidate
+    `C15/stale-capture-of-recorded-object`): the line records `r` as `Size: 0`; the function returns that same list, now
+    holding one element; the identity cache answers for the captured value — the pushed snapshot says
+    `return → id 2 = list 'Size: 0'`, no children, while the value returned renders as `Size: 1`. -/
+theorem c05_stale_capture_witness :
+    (match deferredSnapshot2 Ex.staleLine Ex.staleReturn ⟨⟨40, 1024, 10, 5⟩, Ex.frame0, []⟩ "return" 1 with
+      | .ok s => (s.table.map (fun e => (e.vid, e.value, e.children.length)), s.watches.map (·.vid))
+      | .failed _ => ([], [])) = ([(2, "Size: 0", 0)], [some 2]) ∧
+    (match renderText (Ex.staleReturn.obj 1) with | .ok t => t | .error _ => "") = "Size: 1" := by decide
 
 end deferred
 
